@@ -88,7 +88,7 @@ def run_limit(length):
 
 def _dom(tier):
     if tier == "thorough":
-        return dict(N=5, L=12, Lform=9, run_blocks=3, split_len=3)
+        return dict(N=6, L=14, Lform=11, run_blocks=4, split_len=4)
     return dict(N=3, L=8, Lform=6, run_blocks=2, split_len=2)
 
 
